@@ -403,7 +403,11 @@ def wicks(expr, rules: Rules = None, simplify_kronecker_deltas: bool = False):
             result = _contract_operator_string(op_string)
             result = (Mul(*c_part) * result).expand()
             if simplify_kronecker_deltas:
-                result = evaluate_deltas(result)
+                # the target indices have to be determined for the term
+                # before the contractions: a target index on an operator
+                # occurs on multiple deltas in the result
+                target = Expr(expr).terms[0].target
+                result = evaluate_deltas(result, target_idx=target)
     else:  # neither add, Mul, NO or Operator -> maybe a number or a tensor
         return expr
 
